@@ -150,9 +150,12 @@ SortCand(dirs, s) == IF s = <<>> THEN <<>> ELSE InsertCand(dirs, Head(s), SortCa
 
 RECURSIVE Rel(_, _, _), Cand(_, _, _), RowsOf(_, _, _)
 
+\* (each of the mutually recursive operators below is referenced from ONE place per operator: TLC's -coverage
+\* start-up cost grows with the product of the call sites along the call graph)
 JoinRel(s, db, p) ==
-    LET L == Rel(s.l, db, p \o "/l")
-        R == Rel(s.r, db, p \o "/r")
+    LET side == [d \in {"l", "r"} |-> Rel(IF d = "l" THEN s.l ELSE s.r, db, p \o "/" \o d)]
+        L == side["l"]
+        R == side["r"]
         keys == L.keys \o R.keys
         ok(x, y) == s.on.f = "nil" \/ Val(s.on, keys, x \o y, <<>>) = 1
         hit == [i \in DOMAIN L.rows |-> {j \in DOMAIN R.rows : ok(L.rows[i], R.rows[j])}]
@@ -171,16 +174,17 @@ JoinRel(s, db, p) ==
 \* relation of an origin (table, reference, join) or of a statement used as one
 Rel(s, db, p) ==
     CASE s.t = "table" -> [keys |-> [i \in DOMAIN s.cols |-> KeyOf(s, s.cols[i][1])], rows |-> TableRows(s, db, p)]
-      [] s.t = "ref" ->
-           \* a reference is an independently named handle of its instance: same rows, positions named
-           \* <reference>.<output name of the instance>
-           IF IsStatement(s.l)
-           THEN [keys |-> [i \in DOMAIN SchemaOf(s.l) |-> KeyOf(s, SchemaOf(s.l)[i].name)],
-                 rows |-> RowsOf(s.l, db, p \o "/l")]
-           ELSE LET inner == Rel(s.l, db, p \o "/l") IN
-                [keys |-> [i \in DOMAIN inner.keys |-> KeyOf(s, inner.keys[i].name)], rows |-> inner.rows]
       [] s.t = "join" -> JoinRel(s, db, p)
-      [] OTHER -> [keys |-> [i \in DOMAIN SchemaOf(s) |-> KeyOf(s, SchemaOf(s)[i].name)], rows |-> RowsOf(s, db, p)]
+      [] OTHER ->
+           \* a reference is an independently named handle of its instance: same rows, positions named
+           \* <reference>.<output name of the instance>; a statement used directly is its own handle
+           LET inst == IF s.t = "ref" THEN s.l ELSE s
+               pp == IF s.t = "ref" THEN p \o "/l" ELSE p
+           IN IF IsStatement(inst)
+              THEN [keys |-> [i \in DOMAIN SchemaOf(inst) |-> KeyOf(s, SchemaOf(inst)[i].name)],
+                    rows |-> RowsOf(inst, db, pp)]
+              ELSE LET inner == Rel(inst, db, pp) IN
+                   [keys |-> [i \in DOMAIN inner.keys |-> KeyOf(s, inner.keys[i].name)], rows |-> inner.rows]
 
 (* -------------------------------- queries ------------------------------ *)
 Grouped(q) == q.group # <<>> \/ \E x \in QueryFeatures(q) : HasAgg(x)
@@ -212,15 +216,16 @@ WinHi(q, n) == IF q.rows = <<>> THEN n ELSE Min2(n, q.rows[2] + q.rows[1])
 \* the bag of rows a statement denotes (under limit/offset: the window of the sorted candidates, which is
 \* determined only when the ordering is total - the generators' obligation for NESTED statements)
 RowsOf(s, db, p) ==
-    CASE s.t = "query" -> LET c == Cand(s, db, p) IN
-                          [i \in 1..Max2(0, WinHi(s, Len(c)) - WinLo(s) + 1) |-> c[WinLo(s) + i - 1].out]
-      [] s.t = "set" ->
-           LET L == Dedup(RowsOf(StatementOf(s.l), db, p \o "/l"))
-               R == Dedup(RowsOf(StatementOf(s.r), db, p \o "/r"))
-           IN CASE s.kind = "union" -> Dedup(L \o R)
-                [] s.kind = "intersection" -> SelectSeq(L, LAMBDA x : x \in Range(R))
-                [] s.kind = "difference" -> SelectSeq(L, LAMBDA x : x \notin Range(R))
-      [] OTHER -> RowsOf(EmptyQuery(s), db, p)
+    LET st == StatementOf(s)      \* a bare origin stands for its trivial query
+    IN IF st.t = "query"
+       THEN LET c == Cand(st, db, p) IN
+            [i \in 1..Max2(0, WinHi(st, Len(c)) - WinLo(st) + 1) |-> c[WinLo(st) + i - 1].out]
+       ELSE LET side == [d \in {"l", "r"} |-> Dedup(RowsOf(IF d = "l" THEN st.l ELSE st.r, db, p \o "/" \o d))]
+                L == side["l"]
+                R == side["r"]
+            IN CASE st.kind = "union" -> Dedup(L \o R)
+                 [] st.kind = "intersection" -> SelectSeq(L, LAMBDA x : x \in Range(R))
+                 [] st.kind = "difference" -> SelectSeq(L, LAMBDA x : x \notin Range(R))
 
 Eval(s, db) == RowsOf(s, db, "")
 
